@@ -39,35 +39,48 @@ TRUSTED_BASE = [
     "tools/translate/gen_c05.py (operator arities from the do_* signatures, PREDEFINED_COLORSPACE, arithmetic of "
     "do_Td/do_T_a/render_string/LTChar.__init__) - every translated definition is used by the model and so exercised "
     "by the correspondence",
-    "the harness's PDF writer / serialiser of content streams and its token-level view of PDFContentParser (the lexer "
-    "itself belongs to C01/C14)",
+    "the harness's PDF writer / serialiser of content streams; the byte-level front end (C14's lexer model + the "
+    "assembler of Model/ContentLex.lean) is run on the very bytes pdfminer reads and compared with it every run",
     "exact rationals stand for Python floats; comparison within 2^-30 relative tolerance",
-    "font width lookup (Widths/FirstChar/MissingWidth, /1000) is shared by model and spec (C06 owns it)",
+    "font tables (Widths/FirstChar/MissingWidth, W/W2/DW2, FontMatrix, Descent) are inputs shared by model and spec "
+    "(C06/C07 own their extraction from the font dictionaries)",
 ]
 ASSUMPTIONS = [
     "operands are dyadic rationals of moderate size so that float arithmetic is exact up to the 0.001/0.01 constants",
     "domain = programs the ISO text model gives a meaning to (Spec.run answers some): Figure-9 nesting, no excess "
     "operands, balanced q/Q per stream/form, fonts/forms/colour spaces that exist, colour components in [0,1], "
-    "forms set their own text/colour state in a prologue (pdfminer starts a form with a fresh state)",
+    "forms inherit the caller's graphics state (a page whose Do reaches a form that shows text before any font was selected is outside the domain)",
     "graphicstate.ncolor None is read as 'initial colour'",
 ]
 STATEMENT_STATUS: Dict[str, str] = {
-    "C05_program": "proved: for every env (fonts, forms), CTM, resources, split into streams: TextModel.runPage = some gl "
-                   "-> Interp.runPage reports exactly gl (induction over programs, any q/Q and form nesting <= fuel)",
+    "C05_program": "proved: for every env (fonts incl. Type 3 / CID / vertical, forms), CTM, resources, split into streams: "
+                   "TextModel.runPage = some gl -> Interp.runPage reports exactly gl (induction over programs, any q/Q and "
+                   "form nesting <= fuel; forms inherit the caller's graphics state)",
+    "C05_program_bytes": "proved: the same starting from the bytes of the streams (lexer model of C14 + assembler)",
     "C05_program_any_budget": "proved: the same at every larger nesting budget",
+    "C05_budget_suffices": "proved: with an acyclic (ranked) form table a budget of forms.length is never exhausted, for "
+                           "any program",
+    "C05_fuel_stable": "proved: raising the nesting budget never changes a result",
     "C05_step": "proved: one instruction preserves the simulation relation R and yields the same glyphs",
-    "C05_forms": "proved: Interp.runForm = TextModel.runForm at every budget, for any inherited graphics state "
-                 "(domain: the form sets its own text/colour state in a prologue)",
+    "C05_forms": "proved: Interp.runForm = TextModel.runForm at every budget from related initial states: a form "
+                 "inherits the caller's graphics state (no prologue restriction any more)",
     "C05_split": "proved: streams one after the other = their concatenation (state, operand stack, glyphs)",
     "C05_split_page": "proved",
+    "C05_lex_streams": "proved: PDFContentParser over a Contents array = lexer over the concatenated bytes",
+    "C05_split_bytes": "proved: any division of the bytes into streams gives the same token-level program",
+    "C05_split_at_token_boundary": "proved: at a token boundary, lexing the streams independently (ISO 7.8.2) = "
+                                   "pdfminer's single scanner",
+    "C05_split_at_white_space": "proved: a stream ending in white space after a complete number / operator / name "
+                                "is such a boundary",
     "C05_form_frame": "proved: interpreter state of the caller after Do = before, device CTM = caller's CTM",
     "C05_form_frame_spec": "proved",
     "C05_illtyped": "proved: an instruction with missing/ill-typed operands (no booleans, no excess) leaves the "
                     "interpreter state unchanged and shows nothing",
     "C05_illtyped_spec": "proved (by definition of the spec)",
-    "C05_fuel_stable": "proved: raising the nesting budget never changes a result",
-    "C05_string_displacement": "proved: render_string_horizontal = 9.4.4 displacement for every string",
-    "C05_glyph": "proved: LTChar.__init__ = glyph of the text model",
+    "C05_string_displacement": "proved: render_string_horizontal = 9.4.4 displacement for every string and font",
+    "C05_string_displacement_vertical": "proved: render_string_vertical = 9.4.4 (ty not scaled by Th)",
+    "C05_font_scale": "proved: pdfminer's hscale/vscale (constants, Type 3 FontMatrix) are the scales of 9.6.5",
+    "C05_glyph": "proved: LTChar.__init__ = glyph of the text model, horizontal and vertical writing",
 }
 
 TOL = F(1, 2 ** 30)
@@ -125,15 +138,23 @@ def gen_matrix(rng):
 def gen_string(rng, font, maxlen=5) -> str:
     n = rng.randint(0, maxlen) if rng.random() < 0.9 else rng.randint(0, 12)
     first, cnt = font["first"], len(font["widths"])
+    multi = font.get("kind", "simple") in ("cidh", "cidv")
     out = []
     for _ in range(n):
         r = rng.random()
         if r < 0.2:
-            out.append(32)
+            c = 32
         elif r < 0.9 and cnt:
-            out.append(rng.randint(first, min(255, first + cnt - 1)))
+            c = rng.randint(first, first + cnt - 1)
         else:
-            out.append(rng.randint(0, 255))
+            c = rng.randint(0, 65535 if multi else 255)
+        if multi:
+            c = min(c, 65535)
+            out += [c >> 8, c & 255]
+        else:
+            out.append(min(c, 255))
+    if multi and rng.random() < 0.08:
+        out.append(rng.randint(0, 255))       # a trailing odd byte is not a code
     return bytes(out).hex()
 
 
@@ -147,8 +168,34 @@ def gen_font(rng, idx):
             ws.append(rng.choice([250, 500, 750, 1000, 125, 0, 2000]))      # /1000 often exact in binary
         else:
             ws.append(rng.randint(0, 1200))
-    return {"name": "Vf%c%d" % (65 + idx, rng.randint(0, 9)), "first": first, "widths": ws,
-            "mw": rng.choice([0, 0, 500, 300, 1000]), "descent": rng.choice([0, -200, -250, -120, -500])}
+    f = {"name": "Vf%c%d" % (65 + idx, rng.randint(0, 9)), "first": first, "widths": ws,
+         "mw": rng.choice([0, 0, 500, 300, 1000]), "descent": rng.choice([0, -200, -250, -120, -500]), "kind": "simple"}
+    r = rng.random()
+    if r < 0.14:
+        # Type 3: glyph space -> text space by the FontMatrix (skew terms included), descent from the FontBBox
+        f["kind"] = "type3"
+        a = rng.choice([F(1, 1000), F(1, 1024), F(1, 512), F(1, 100), F(1, 2048)])
+        d = rng.choice([a, F(1, 1000), F(1, 512), -a])
+        f["fm"] = [str(a), str(rng.choice([F(0), F(0), F(1, 4096), -F(1, 2048)])),
+                   str(rng.choice([F(0), F(0), F(1, 4096), F(1, 1024)])), str(d), "0", "0"]
+        f["descent"] = rng.choice([0, -200, -128, 64])
+    elif r < 0.26:
+        f["kind"] = "cidh"            # Type0 / Identity-H: two-byte codes, no word spacing
+        f["first"] = rng.choice([0, 1, 32, 300])
+    elif r < 0.42:
+        f["kind"] = "cidv"            # Type0 / Identity-V: vertical writing
+        f["first"] = rng.choice([0, 1, 32, 300])
+        f["widths"] = [rng.choice([-1000, -1000, -500, -880, 0, 600, -rng.randint(0, 1200)]) for _ in ws]
+        f["disps"] = [[rng.choice([500, 250, 0, 440, -100]), rng.choice([880, 800, 1000, 0, 500])] for _ in ws]
+        f["mw"] = rng.choice([-1000, -1000, -500, 0])
+        f["dvy"] = rng.choice([880, 880, 1000, 0])
+    return f
+
+
+def font_decode(font: dict, b: bytes) -> List[int]:
+    if font.get("kind", "simple") in ("cidh", "cidv"):
+        return [b[i] * 256 + b[i + 1] for i in range(0, len(b) - 1, 2)]
+    return list(b)
 
 
 ILL = [["/", "Zz"], ["s", "7a51"], ["z"], ["a", []], ["a", [["n", "1"]]]]
@@ -285,8 +332,10 @@ class Gen:
         out: List[list] = []
         stack: List[dict] = []
         in_text = False
-        if is_form and not (self.wild and rng.random() < 0.3):
+        if is_form and rng.random() < 0.35:
             out += self.prologue(res, st)
+        elif is_form and rng.random() < 0.6:
+            st["font"] = "?"          # relies on the font / colour / text state the caller hands over
         elif not self.wild or rng.random() < 0.8:
             a = self.args_for("Tf", res, st)
             out.append(["Tf", a])
@@ -387,6 +436,10 @@ class Gen:
             case["splitmode"] = [rng.randint(0, 2) for _ in case["splits"]]
         else:
             case["splitmode"] = []
+        if self.wild and rng.random() < 0.5:
+            total = sum(len(b) for b in serialise(case["prog"], case["trail"], case["style"], case["splits"], case["splitmode"]))
+            if total > 2:
+                case["bytecuts"] = [rng.randint(1, total - 1) for _ in range(rng.choice([1, 1, 2]))]
         return case
 
 
@@ -466,6 +519,25 @@ def serialise(prog: list, trail: list, style: int, splits: List[int], modes: Lis
     return streams
 
 
+def byte_streams(case: dict) -> List[bytes]:
+    """The Contents array as written to the PDF: the token-boundary split, then (wild cases) extra cuts at
+    arbitrary byte offsets - also in the middle of a token: pdfminer's scanner survives a stream boundary."""
+    streams = serialise(case["prog"], case.get("trail", []), case.get("style", 0), case.get("splits", []),
+                        case.get("splitmode", []))
+    for cut in case.get("bytecuts", []):
+        out, done = [], False
+        for b in streams:
+            if not done and 0 < cut < len(b):
+                out += [b[:cut], b[cut:]]
+                done = True
+            else:
+                out.append(b)
+                if not done:
+                    cut -= len(b)
+        streams = out
+    return streams
+
+
 # ------------------------------------------------------------------------------------------ implementation adapter
 
 def page_ctm(mediabox, rotate):
@@ -482,10 +554,37 @@ def page_ctm(mediabox, rotate):
 def build_pdf(case: dict) -> bytes:
     objs: Dict[int, Any] = {}
     for i, f in enumerate(case["fonts"]):
-        d = {"Type": "Font", "Subtype": "Type1", "BaseFont": f["name"], "FirstChar": f["first"],
-             "LastChar": f["first"] + max(0, len(f["widths"]) - 1), "Widths": list(f["widths"]),
-             "FontDescriptor": {"Type": "FontDescriptor", "FontName": f["name"], "Flags": 32,
-                                "Descent": f["descent"], "MissingWidth": f["mw"], "FontBBox": [0, -200, 1000, 800]}}
+        kind = f.get("kind", "simple")
+        desc = {"Type": "FontDescriptor", "FontName": f["name"], "Flags": 32, "Descent": f["descent"],
+                "MissingWidth": f["mw"], "FontBBox": [0, -200, 1000, 800]}
+        if kind == "simple":
+            d = {"Type": "Font", "Subtype": "Type1", "BaseFont": f["name"], "FirstChar": f["first"],
+                 "LastChar": f["first"] + max(0, len(f["widths"]) - 1), "Widths": list(f["widths"]),
+                 "FontDescriptor": desc}
+        elif kind == "type3":
+            desc = dict(desc, FontBBox=[0, f["descent"], 1000, 800])
+            d = {"Type": "Font", "Subtype": "Type3", "FontBBox": [0, f["descent"], 1000, 800],
+                 "FontMatrix": [F(x) for x in f["fm"]], "CharProcs": {}, "FirstChar": f["first"],
+                 "LastChar": f["first"] + max(0, len(f["widths"]) - 1), "Widths": list(f["widths"]),
+                 "FontDescriptor": desc}
+        else:
+            cid = {"Type": "Font", "Subtype": "CIDFontType2", "BaseFont": f["name"],
+                   "CIDSystemInfo": {"Registry": b"Adobe", "Ordering": b"Identity", "Supplement": 0},
+                   "FontDescriptor": {k: v for k, v in desc.items() if k != "MissingWidth"}}
+            if kind == "cidh":
+                cid["DW"] = f["mw"]
+                if f["widths"]:
+                    cid["W"] = [f["first"], list(f["widths"])]
+            else:
+                cid["DW2"] = [f["dvy"], f["mw"]]
+                if f["widths"]:
+                    flat = []
+                    for w, (vx, vy) in zip(f["widths"], f["disps"]):
+                        flat += [w, vx, vy]
+                    cid["W2"] = [f["first"], flat]
+            objs[60 + i] = cid
+            d = {"Type": "Font", "Subtype": "Type0", "BaseFont": f["name"],
+                 "Encoding": "Identity-H" if kind == "cidh" else "Identity-V", "DescendantFonts": [W.Ref(60 + i)]}
         objs[20 + i] = d
 
     def res_obj(res):
@@ -502,8 +601,7 @@ def build_pdf(case: dict) -> bytes:
             d["Resources"] = res_obj(fm["res"])
         data = serialise(fm["prog"], [], case.get("style", 0), [], [])[0]
         objs[40 + i] = W.Stream(d, data)
-    streams = serialise(case["prog"], case.get("trail", []), case.get("style", 0), case.get("splits", []),
-                        case.get("splitmode", []))
+    streams = byte_streams(case)
     page_extra = {"Rotate": case["rotate"]} if case.get("rotate") else {}
     return W.simple_doc([list(streams)], resources=res_obj(case["res"]), mediabox=tuple(case["mediabox"]),
                         extra_objs=objs, page_extra=page_extra)
@@ -578,20 +676,41 @@ def mapply(m, p):
     return (a * p[0] + c * p[1] + e, b * p[0] + d * p[1] + f)
 
 
-def font_w0(font: dict, code: int) -> F:
+def font_width(font: dict, code: int) -> F:
     i = code - font["first"]
-    w = font["widths"][i] if 0 <= i < len(font["widths"]) else font["mw"]
-    return F(w) / 1000
+    return F(font["widths"][i] if 0 <= i < len(font["widths"]) else font["mw"])
 
 
-def observe(trm, w0, tfs, th, rise, font: dict, col) -> dict:
+def font_scales(font: dict) -> Tuple[F, F]:
+    if font.get("kind") == "type3":
+        return F(font["fm"][0]), F(font["fm"][3])      # 9.6.5: (w, 0) x FontMatrix = (w a, ...)
+    return F(1, 1000), F(1, 1000)
+
+
+def observe(trm, font: dict, tfs, th, rise, code: int, col) -> dict:
     """What LTChar reports for a glyph the text model places with Tm x CTM = trm."""
-    adv = w0 * tfs * th
-    desc = F(font["descent"]) / 1000 * tfs
-    pts = [mapply(trm, (x, y)) for x in (F(0), adv) for y in (desc + rise, desc + rise + tfs)]
+    hs, vs = font_scales(font)
+    w = font_width(font, code) * hs
+    if font.get("kind") == "cidv":
+        adv = w * tfs
+        i = code - font["first"]
+        if 0 <= i < len(font["disps"]):
+            vx = F(font["disps"][i][0]) / 1000 * tfs
+            vy0 = F(font["disps"][i][1])
+        else:
+            vx = tfs / 2
+            vy0 = F(font["dvy"])
+        vy = (1000 - vy0) / 1000 * tfs
+        box = (-vx, vy + rise + adv, -vx + tfs, vy + rise)
+    else:
+        adv = w * tfs * th
+        desc = F(font["descent"]) * vs * tfs
+        box = (F(0), desc + rise, adv, desc + rise + tfs)
+    pts = [mapply(trm, (x, y)) for x in (box[0], box[2]) for y in (box[1], box[3])]
     x0, x1 = min(p[0] for p in pts), max(p[0] for p in pts)
     y0, y1 = min(p[1] for p in pts), max(p[1] for p in pts)
-    return {"m": list(trm), "adv": adv, "bbox": [x0, y0, x1, y1], "size": y1 - y0, "font": font["name"],
+    return {"m": list(trm), "adv": adv, "bbox": [x0, y0, x1, y1],
+            "size": (x1 - x0) if font.get("kind") == "cidv" else (y1 - y0), "font": font["name"],
             "col": None if col is None else list(col)}
 
 
@@ -713,8 +832,6 @@ class SpecMachine:
             if v[0] not in res["xobjs"]:
                 raise Out("xobject resource")
             fm = self.case["forms"][res["xobjs"][v[0]]]
-            if not has_prologue(fm["prog"]):
-                raise Out("form relies on inherited state")
             g2 = dict(g)                                 # q
             if fm["matrix"] is not None:
                 g2["ctm"] = mmul(tuple(F(x) for x in fm["matrix"]), g2["ctm"])   # Matrix cm
@@ -731,18 +848,21 @@ class SpecMachine:
         if g["font"] is None:
             raise Out("no font")
         font = self.case["fonts"][g["font"]]
+        kind = font.get("kind", "simple")
+        vertical, multi = kind == "cidv", kind in ("cidh", "cidv")
+        hs, _ = font_scales(font)
         tm = txt["Tm"]
         th = g["Th"] / 100
         for e in seq:
             if e[0] == "n":
-                tx = (-F(e[1]) / 1000 * g["Tfs"]) * th
-                tm = mmul(mtrans(tx, F(0)), tm)
+                t = -F(e[1]) / 1000 * g["Tfs"]
+                tm = mmul(mtrans(F(0), t) if vertical else mtrans(t * th, F(0)), tm)
             else:
-                for code in bytes.fromhex(e[1]):
-                    w0 = font_w0(font, code)
-                    self.glyphs.append(observe(mmul(tm, g["ctm"]), w0, g["Tfs"], th, g["Trise"], font, g["ncol"]))
-                    tx = (w0 * g["Tfs"] + g["Tc"] + (g["Tw"] if code == 32 else 0)) * th
-                    tm = mmul(mtrans(tx, F(0)), tm)
+                for code in font_decode(font, bytes.fromhex(e[1])):
+                    w = font_width(font, code) * hs
+                    self.glyphs.append(observe(mmul(tm, g["ctm"]), font, g["Tfs"], th, g["Trise"], code, g["ncol"]))
+                    d = w * g["Tfs"] + g["Tc"] + (g["Tw"] if (code == 32 and not multi) else 0)
+                    tm = mmul(mtrans(F(0), d) if vertical else mtrans(d * th, F(0)), tm)
         return {"Tm": tm, "Tlm": txt["Tlm"]}
 
 
@@ -854,14 +974,25 @@ def enc_case(case: dict, mode: str) -> str:
     """One request line.  Streams are sent separately (the model folds over them)."""
     parts = [f"c05 {mode} " + " ".join(fs(x) for x in page_ctm(case["mediabox"], case.get("rotate", 0)))]
     for f in case["fonts"]:
-        parts.append("font %s %d %d %d %s" % (f["name"].encode("latin-1").hex(), f["first"], f["mw"], f["descent"],
-                                                " ".join(str(w) for w in f["widths"]) or "-"))
+        kind = f.get("kind", "simple")
+        if kind == "type3":
+            k = "t3:" + ",".join(fs(F(x)) for x in f["fm"])
+        elif kind == "cidv":
+            k = "cidv:%d:%s" % (f["dvy"], ";".join("%d,%d" % (vx, vy) for vx, vy in f["disps"]) or "-")
+        else:
+            k = {"simple": "s", "cidh": "cidh"}[kind]
+        parts.append("font %s %d %d %d %s %s" % (f["name"].encode("latin-1").hex(), f["first"], f["mw"], f["descent"], k,
+                                                   " ".join(str(w) for w in f["widths"]) or "-"))
     for fm in case["forms"]:
         m = " ".join(fs(F(x)) for x in fm["matrix"]) if fm["matrix"] is not None else "nomatrix"
         parts.append(f"form {m} ; {enc_res(fm['res'])} ; {enc_prog(fm['prog'])}")
     parts.append(f"page {enc_res(case['res'])}")
-    for s in split_token_streams(case):
-        parts.append("stream " + s)
+    if mode == "modelb":
+        for b in byte_streams(case):
+            parts.append("bstream " + (b.hex() or "-"))
+    else:
+        for s in split_token_streams(case):
+            parts.append("stream " + s)
     return " | ".join(parts)
 
 
@@ -1030,9 +1161,11 @@ def flush(ctx: C.Ctx, batch: list) -> None:
         for case, _, _, _ in batch:
             lines.append(enc_case(case, "model"))
             lines.append(enc_case(case, "spec"))
+            lines.append(enc_case(case, "modelb"))
         rep = ctx.driver.ask(lines)
-        model_out = [parse_reply(r) for r in rep[0::2]]
-        spec_out = [parse_reply(r) for r in rep[1::2]]
+        model_out = [parse_reply(r) for r in rep[0::3]]
+        spec_out = [parse_reply(r) for r in rep[1::3]]
+        modelb_out = [parse_reply(r) for r in rep[2::3]]
     for k, (case, im, wanted, origin) in enumerate(batch):
         psp = py_spec(case)
         lsp = spec_out[k] if spec_out is not None else None
@@ -1046,14 +1179,20 @@ def flush(ctx: C.Ctx, batch: list) -> None:
         for o in feats:
             ctx.branch("op:" + o)
         ctx.branch("streams:%d" % (len(case.get("splits", [])) + 1))
+        if case.get("bytecuts"):
+            ctx.branch("bytecuts")
         ctx.branch("forms:%d" % len(case["forms"]))
+        for f in case["fonts"]:
+            ctx.branch("font:" + f.get("kind", "simple"))
         if psp[0] == "out":
             ctx.branch("out:" + psp[1])
         for t in tags_for(case, 0, "", None, None)["illtyped_ops"]:
             ctx.branch("ill:" + t)
         # (0) the two spec implementations agree (Lean spec is the reference; the twin is the fallback oracle)
+        twin_differs = False
         if lsp is not None:
             if lsp[0] == "err" or (lsp[0] == "ok") != (psp[0] == "ok") or (lsp[0] == "ok" and seq_diff(lsp[1], psp[1])):
+                twin_differs = True
                 ctx.disagree("spec-twin", {"case": case}, "python twin: %s %s" % (psp[0], psp[1] if psp[0] != "ok" else len(psp[1])),
                              "lean spec: %s %s" % (lsp[0], lsp[1] if lsp[0] != "ok" else len(lsp[1])))
         # (a) tie: model == implementation
@@ -1071,8 +1210,23 @@ def flush(ctx: C.Ctx, batch: list) -> None:
                     ctx.disagree("c05.model", {"case": case, "glyph": i, "field": field},
                                  show_glyph(im[1][i]) if i < len(im[1]) else None,
                                  show_glyph(mo[1][i]) if i < len(mo[1]) else None)
+            # (a') the same through the byte-level front end: lexer model + assembler on the very bytes pdfminer reads
+            mb = modelb_out[k]
+            ctx.branch("bytes:" + mb[0])
+            if mb[0] == "ok" and im[0] == "ok":
+                d = seq_diff(im[1], mb[1])
+                if d is not None:
+                    ctx.disagree("c05.model-bytes", {"case": case, "glyph": d[0], "field": d[1]},
+                                 show_glyph(im[1][d[0]]) if d[0] < len(im[1]) else None,
+                                 show_glyph(mb[1][d[0]]) if d[0] < len(mb[1]) else None)
+            elif mb[0] == "ok" and im[0] == "exc":
+                ctx.disagree("c05.model-bytes", {"case": case}, im[1], "glyphs=%d" % len(mb[1]))
+            elif mb[0] == "err" and "fuel" in mb[1] and im[0] == "ok":
+                ctx.disagree("c05.model-bytes", {"case": case}, "glyphs=%d" % nglyph, mb[1])
         # (b) property: implementation == spec on the domain
-        sp = lsp if (lsp is not None and lsp[0] != "err") else psp
+        # The Lean spec uses the matrix helpers regenerated from utils.py; when it and the twin (which shares no
+        # code with the repo) differ, the twin is the oracle so that the edit is still reported with a replay.
+        sp = lsp if (lsp is not None and lsp[0] != "err" and not twin_differs) else psp
         if sp[0] != "ok":
             continue
         if im[0] == "exc":
@@ -1179,6 +1333,34 @@ def directed_cases() -> List[dict]:
     c["prog"] = json.loads(json.dumps([["Do", [["/", "X0"]]]] + head + [["Tj", [S("A")]], ["ET", []]]))
     c["name"] = "form-then-caller-text"
     out.append(c)
+    # a form that relies on the font, size, spacing and fill colour it inherits from its caller
+    c = json.loads(json.dumps(base))
+    c["forms"] = [{"matrix": ["1", "0", "0", "1", "30", "40"], "bbox": [0, 0, 100, 100], "res": None,
+                   "prog": json.loads(json.dumps([["BT", []], ["Td", [N(1), N(2)]], ["Tj", [S("xy")]], ["ET", []]]))}]
+    c["res"]["xobjs"] = {"X0": 0}
+    c["prog"] = json.loads(json.dumps([["Tf", [["/", "F1"], N(9)]], ["rg", [N(1), N(0), N(F(1, 2))]], ["Tc", [N(3)]],
+                                       ["Do", [["/", "X0"]]]]))
+    c["name"] = "form-inherits-state"
+    out.append(c)
+    # vertical writing under 50 Tz with Tc and a TJ adjustment: ty is not scaled by Th
+    c = json.loads(json.dumps(base))
+    c["fonts"].append({"name": "VfV1", "first": 1, "widths": [-1000, -880], "mw": -900, "descent": -120, "kind": "cidv",
+                       "disps": [[500, 880], [440, 800]], "dvy": 880})
+    c["res"]["fonts"]["V1"] = 1
+    c["prog"] = json.loads(json.dumps([["BT", []], ["Tf", [["/", "V1"], N(10)]], ["Tm", [N(1), N(0), N(0), N(1), N(300), N(700)]],
+                                       ["Tz", [N(50)]], ["Tc", [N(2)]], ["Tj", [["s", "00010003"]]],
+                                       ["TJ", [["a", [N(100), ["s", "0002"]]]]], ["ET", []]]))
+    c["name"] = "vertical-Tz"
+    out.append(c)
+    # Type 3 font with a skewed FontMatrix: the horizontal scale is its a entry
+    c = json.loads(json.dumps(base))
+    c["fonts"].append({"name": "VfT1", "first": 65, "widths": [512, 1024, 300], "mw": 0, "descent": -128, "kind": "type3",
+                       "fm": ["1/512", "0", "1/1024", "1/1024", "0", "0"]})
+    c["res"]["fonts"]["T3"] = 1
+    c["prog"] = json.loads(json.dumps([["BT", []], ["Tf", [["/", "T3"], N(8)]], ["Tm", [N(1), N(0), N(0), N(1), N(50), N(600)]],
+                                       ["Tc", [N(1)]], ["Tj", [S("ABC")]], ["ET", []]]))
+    c["name"] = "type3-fontmatrix"
+    out.append(c)
     return out
 
 
@@ -1190,7 +1372,7 @@ def run(ctx: C.Ctx) -> None:
         c.pop("name", None)
         check_case(ctx, c, True, batch, "directed")
     flush(ctx, batch)
-    n = ctx.n(1500, 40000)
+    n = ctx.n(1200, 40000)
     for i in range(n):
         if not ctx.time_left():
             ctx.notes.append("time budget reached after %d generated cases" % i)
